@@ -1020,6 +1020,20 @@ func AlphabetProxy(t *Node) []Msg {
 	return out
 }
 
+// AlphabetRTReq is the alphabet of the rtreq family (round 8b: what the upstream round tripper puts into
+// res.Request): the symbols of AlphabetProxy whose exchange gets a response from the upstream round tripper - every
+// plain message and the requests addressed to the proxy's own API; the exchanges the proxy answers itself (failed
+// round trip, failed CONNECT) have no upstream response and stay with the proxy family.
+func AlphabetRTReq(t *Node) []Msg {
+	var out []Msg
+	for _, m := range AlphabetProxy(t) {
+		if m.Via == 0 {
+			out = append(out, m)
+		}
+	}
+	return out
+}
+
 // ProxyTrees: the trees played through a real proxy.
 func ProxyTrees(tier string) []*Node {
 	var out []*Node
